@@ -272,9 +272,14 @@ func ExplainGpos(fontInfo *sfnt.Font) []string {
 
 			case *gtab.Gpos4_1:
 				checkType(4)
+				sep := "\n\t"
+				if i > 0 {
+					sep = "" // " ||\n\t" has been written already
+				}
 				markGlyphs := l.MarkCov.Glyphs()
 				for i, gid := range markGlyphs {
-					ee.w.WriteString("\n\tmark ")
+					ee.w.WriteString(sep + "mark ")
+					sep = "\n\t"
 					ee.writeGlyph(gid)
 					ee.w.WriteRune(':')
 					rec := l.MarkArray[i]
@@ -284,7 +289,8 @@ func ExplainGpos(fontInfo *sfnt.Font) []string {
 
 				baseGlyphs := l.BaseCov.Glyphs()
 				for i, gid := range baseGlyphs {
-					ee.w.WriteString("\n\tbase ")
+					ee.w.WriteString(sep + "base ")
+					sep = "\n\t"
 					ee.writeGlyph(gid)
 					ee.w.WriteRune(':')
 					anchors := l.BaseArray[i]
